@@ -819,7 +819,8 @@ def r14(c):
     c02.r4(c)
 
 
-@rule('C01', 'R01.15', 'addressing: on TCP/TLS every frame carries a unit id (unit id 0 is an ordinary unit there); Broadcast is produced only by the RTU parser (C17/R17.5)')
+@rule('C01', 'R01.15', 'addressing: on TCP/TLS every frame carries a unit id (unit id 0 is an ordinary unit there); Broadcast is produced only by the RTU parser (C17/R17.5)',
+      needs=lambda P: P.has('rodbus::serial::frame::RtuParser::parse'))
 def r15(c):
     from rules import c17
     c17.r5(c)
